@@ -7,7 +7,9 @@ RULE = ("each obligation is one Kani/CBMC query: the real numeric primitive exec
 
 SPECS = [p_kani.Spec("steel-core", "steel-core/src/primitives/numbers.rs", "num.rs", "verif_num")]
 
-FUNCS = ["primitives::numbers::{add_two, add_two_fallible, negate, abs, subtract_primitive, multiply_two, truncate_quotient, "
+FUNCS = ["rvals::<SteelVal as PartialOrd>::partial_cmp (the comparison behind <, <=, >, >= and the LTE* opcodes) on IntV x NumV, IntV x IntV, IntV x BigNum, Rational x IntV",
+         "primitives::numbers::{floor, ceiling, truncate, round} on small rationals; divide_primitive (reciprocal of a machine integer); expt (small rational base, machine-integer exponent)",
+         "primitives::numbers::{add_two, add_two_fallible, negate, abs, subtract_primitive, multiply_two, truncate_quotient, "
          "truncate_remainder, floor_quotient, floor_remainder, euclidean_quotient, euclidean_remainder, even, odd, "
          "exact_integer_sqrt, exact_integer_impl, arithmetic_shift, expt (exact integer base, exponent -1)}", "primitives::IntoSteelVal for {isize, BigInt} (canonicalisation)"]
 
@@ -20,6 +22,8 @@ ASSUME = [
     "feature set std,sync,biased,imbl,rooted-instructions (no jit2/dylibs); results are IntV/BigNum values that are mem::forgotten (drop glue is not the subject)",
     "Kani checks overflow as the dev/test profile does; release-profile wrap-around is covered by the value oracle",
     "model (num_*_i_big only): num-bigint's long division is not executed; its four entry points (biguint::division::{div_rem, div_rem_ref, div_rem_digit, rem_digit}) are replaced by an exact model valid for dividend magnitude < 2 * divisor magnitude (quotient digit 0 or 1), the operand region of those harnesses; a cover witnesses that the division is reached",
+    "rational harnesses: `Ratio::new` is replaced by its sign normalisation only (operands are coprime by construction, the gcd loops are skipped); num_expt_rational_i: num-bigint's big-integer power is a recording stub (which path is taken is checked, the big value is not)",
+    "E3k (imm): only payload sites whose operand is computed from a literal token's integer payload are interpreted; comparisons of that value with constants are the only branch conditions kept; builds with the native tier (jit2) do not emit these opcodes",
     "E3c (kinds:numeric-kernels): only explicit panic sites (panic!/unreachable!/todo!) of multiply_two / add_two / add_two_fallible / negate, operands restricted to the six number kinds; paths through branches other than kind / integer-payload tests are not interpreted",
 ]
 
@@ -41,6 +45,11 @@ def plan(tier):
         {"h": "num_exact_of_integral_double", "sym": "(exact f), f: every finite integral f64"},
         {"h": "num_magnitude_i", "sym": "x: isize"},
         {"h": "num_truncate_quotient_i_big", "sym": "x: isize (full width), divisor 2^63 + off or -(2^63 + 1 + off), off: u16"},
+        {"h": "num_cmp_int_float", "sym": "(< i f), (< f i) ...: i: isize (full width), f: every finite f64"},
+        {"h": "num_cmp_int_big", "sym": "i: isize (full width) against a big integer just beyond +-2^63, both orders"},
+        {"h": "num_floor_rational", "sym": "(floor n/d): n: every i32 coprime to d, d in {2,3,5,7}"},
+        {"h": "num_ceiling_rational", "sym": "(ceiling n/d): n: every i32 coprime to d, d in {2,3,5,7}"},
+        {"h": "num_recip_i", "sym": "(/ x): x: isize (full width)"},
     ]
     t = [
         {"h": "num_add_fallible_ii", "sym": SYM2},
@@ -62,11 +71,17 @@ def plan(tier):
         {"h": "num_euclidean_remainder_edge", "sym": "x within 3 of isize::MIN/MAX, |y| <= 3"},
         {"h": "num_exact_integer_sqrt_small", "sym": "0 <= x < 2^12"},
         {"h": "num_truncate_remainder_i_big", "sym": "x: isize (full width), divisor just beyond +-2^63"},
+        {"h": "num_cmp_ii", "sym": SYM2},
+        {"h": "num_cmp_rational_int", "sym": "n/d (n: every i32 coprime to d, d in {2,3,5,7}) against y: isize (full width), both orders"},
+        {"h": "num_truncate_rational", "sym": "(truncate n/d): n: every i32, d in {2,3,5,7}"},
+        {"h": "num_expt_rational_i", "sym": "(expt n/d e): n in -3..3, d in {2,3,5}, e in -40..40"},
     ]
     # not covered (measured): full-width division (two divider circuits: > 2400 s each), (isize::MIN, -1) for
     # euclidean-remainder (num-bigint division is inline assembly), num_floor_remainder_i_big (real num-bigint division: solver out of memory),
     # num_expt_* (expt with concrete exponent -2/-3 and |base| <= 12: 900 s timeout),
-    # 64x64-bit product equality, gcd/lcm, number<->string
+    # 64x64-bit product equality, gcd/lcm, number<->string,
+    # num_round_rational (unwinding bound 6 too small for Ratio::cmp's continued-fraction loop), num_add_rational_i (Ratio::checked_add with its
+    # gcd loops on a symbolic i32: solver out of memory) -- both kept in harness/num.rs, in no tier
     return q + (t if tier == "thorough" else [])
 
 
@@ -96,6 +111,7 @@ def kernel_kinds(run):
         return
     c07.kinds_obligations(run, only_kernels=True)
     cmp_obligation(run)
+    imm_obligation(run)
 
 
 def cmp_obligation(run):
@@ -148,5 +164,74 @@ def cmp_obligation(run):
     run.ob(oid, "fail", note=obs[:200], **common)
 
 
+def imm_obligation(run):
+    """E3k: a literal packed into a 24-bit instruction payload by the code generator fits it (lib/p_imm.py)"""
+    import os, re, json, shutil, subprocess, time
+    import ws, p_imm
+    oid = "imm:literal-operands-fit-the-instruction-payload"
+    M = getattr(run, "_mir", None)
+    t0 = time.time()
+    try:
+        r = p_imm.analyse(open(M["out"]).read())
+    except Exception as ex:
+        run.ob(oid, "inconclusive", reason="extraction failed: %s" % str(ex)[-300:], engine="mir-smt")
+        return
+    ls = r["literal_sites"]
+    common = dict(engine="mir-smt/z3", wall_s=round(time.time() - t0, 1), solver_s=round(sum(x["dt"] for x in ls), 3), solver_checks=2 * len(ls))
+    run.samples.append({"engine": "mir-smt", "query": "exists a 64-bit literal v reaching a 24-bit payload site of the code generator (LabeledInstruction::payload / u24::from_usize fed by the integer "
+                        "payload of a literal token) along a path whose comparisons of v with constants hold, with (v as usize) >= 2^24",
+                        "payload sites in the compiler": r["sites_total"], "fed by a literal": [(x["function"], x["callee"], x["res"]) for x in ls]})
+    run.functions.append("compiler::code_gen::CodeGenerator::specialize_immediate_call (+ every other 24-bit payload site of compiler::{code_gen, program}): value range of literal operands (MIR)")
+    if r["errors"] or r["sites_total"] < 10 or not ls or any(x["witness"] != "sat" for x in ls) or any(x["res"] == "error" for x in ls):
+        run.ob(oid, "inconclusive", reason="; ".join(r["errors"][:2]) or "vacuous or solver error (%d payload sites, %d fed by a literal)" % (r["sites_total"], len(ls)), **common)
+        return
+    bad = [x for x in ls if x["res"] == "sat"]
+    if not bad:
+        run.ob(oid, "pass", nonvacuous=True, note="%d literal-fed payload site(s): every literal that reaches them is below 2^24" % len(ls), **common)
+        return
+    b = bad[0]
+    what = "%s packs the literal operand of (+ x N) / (- x N) / (<= x N) into a 24-bit payload without an upper bound: N = %s reaches it" % (b["function"], b["literal"])
+    try:
+        shutil.copy(os.path.join(ws.VERIF, "harness", "arity_replay.rs"), os.path.join(M["wsdir"], "crates", "steel-core", "tests", "verif_arity_replay.rs"))
+        p = subprocess.run(["cargo", "test", "--offline", "-p", "steel-core", "--no-default-features", "--features", ws.FEATURES,
+                            "--test", "verif_arity_replay", "--target-dir", os.path.join(M["root"], "tn"), "--", "imm_replay", "--exact", "--nocapture"],
+                           cwd=M["wsdir"], env=dict(M["env"], VERIF_IMM_LIT=str(b["literal"] or (1 << 24))), capture_output=True, text=True, timeout=2400)
+        m = re.search(r"OBSERVED: (.*)", p.stdout + p.stderr)
+    except Exception as ex:
+        run.ob(oid, "inconclusive", reason="replay failed: %s" % str(ex)[-300:], **common)
+        return
+    if not m:
+        run.ob(oid, "inconclusive", reason="solver: %s; literal and variable operands agreed natively" % what, **common)
+        return
+    d = os.path.join(ws.VERIF, "replays", run.pid)
+    os.makedirs(d, exist_ok=True)
+    path = os.path.join(d, "imm.json")
+    json.dump({"property": run.pid, "kind": "imm", "what": what, "literal": b["literal"] or (1 << 24), "observed": m.group(1), "how": "./check %s --replay <this file>" % run.pid}, open(path, "w"), indent=1)
+    key = "imm:literal-truncated"
+    if run.is_known(key):
+        run.known_hit(key, run.known[(run.pid, key)] + " -- " + m.group(1)[:200])
+        run.ob(oid, "known", nonvacuous=True, **common)
+    else:
+        run.violation(key, "%s; natively: %s" % (what, m.group(1)[:300]), path)
+        run.ob(oid, "fail", note=m.group(1)[:200], **common)
+
+
 def replay(pid, path):
+    import json
+    payload = json.load(open(path))
+    if payload.get("kind") in ("imm", "cmp"):
+        import os, re, shutil, subprocess, ws
+        wsdir = ws.prepare("c10replay", [])
+        root = os.path.dirname(wsdir)
+        shutil.copy(os.path.join(ws.VERIF, "harness", "arity_replay.rs"), os.path.join(wsdir, "crates", "steel-core", "tests", "verif_arity_replay.rs"))
+        test, env = ("imm_replay", {"VERIF_IMM_LIT": str(payload["literal"])}) if payload["kind"] == "imm" else ("kinds_replay", {"VERIF_KINDS_CALL": payload["call"]})
+        p = subprocess.run(["cargo", "test", "--offline", "-p", "steel-core", "--no-default-features", "--features", ws.FEATURES,
+                            "--test", "verif_arity_replay", "--target-dir", os.path.join(root, "tn"), "--", test, "--exact", "--nocapture"],
+                           cwd=wsdir, env=dict(os.environ, CARGO_NET_OFFLINE="true", **env), capture_output=True, text=True)
+        m = re.search(r"OBSERVED: (.*)", p.stdout + p.stderr)
+        print("observed:", m.group(1) if m else "not reproduced")
+        if m:
+            print("VIOLATION property=%s replay=%s" % (pid, path))
+            return 1
+        return 0
     return p_kani.replay(pid, path)
